@@ -294,3 +294,43 @@ fn c09_merge_stable_12_12_concrete() {
     wit!(rs.len() == 24);
     core::mem::forget(m);
 }
+
+/// Smallest input beyond std's small-slice threshold (21 elements: 11 + 10 radials, azimuth numbers
+/// colliding pairwise): ties must come out first-then-second.  Concrete input, as above.
+#[kani::proof]
+#[kani::unwind(24)]
+fn c09_merge_stable_11_10_concrete() {
+    let e = 3u8;
+    let mut v1 = Vec::with_capacity(11);
+    let mut v2 = Vec::with_capacity(10);
+    let mut i = 0u16;
+    while i < 11 {
+        v1.push(mk(i as i64, 1 + i, e)); // azimuth numbers 1..=11
+        i += 1;
+    }
+    let mut i = 0u16;
+    while i < 10 {
+        v2.push(mk((100 + i) as i64, 1 + (i + 4) % 10, e)); // numbers 1..=10, rotated by 4
+        i += 1;
+    }
+    let m = match Sweep::new(e, v1).merge(Sweep::new(e, v2)) {
+        Ok(m) => m,
+        Err(e) => {
+            core::mem::forget(e);
+            panic!("C09: merging equal elevation numbers failed")
+        }
+    };
+    let rs = m.radials();
+    assert!(rs.len() == 21, "C09: merge lost or duplicated radials");
+    let mut k = 0;
+    while k < 21 {
+        // expected: azimuth 1 (first, second), ..., azimuth 10 (first, second), azimuth 11 (first)
+        let az = 1 + (k / 2) as u16;
+        assert!(rs[k].azimuth_number() == az, "C09: merge result not ordered by azimuth number");
+        let from_second = rs[k].collection_timestamp() >= 100;
+        assert!(from_second == (k % 2 == 1), "C09: ties not in first-then-second order");
+        k += 1;
+    }
+    wit!(rs.len() == 21);
+    core::mem::forget(m);
+}
